@@ -2,6 +2,7 @@ package props
 
 import (
 	"fmt"
+	"net/netip"
 	"strings"
 	"sync"
 	"sync/atomic"
@@ -227,7 +228,24 @@ func c06Direct(c *Ctx, syms []c06Sym, parsed []*rules.NetworkRule, ms []int) (ev
 				sl[k] = parsed[i]
 			}
 			evals++
-			m := rules.NewMatchingResult(append([]*rules.NetworkRule{}, rl...), append([]*rules.NetworkRule{}, sl...))
+			in1, in2 := append([]*rules.NetworkRule{}, rl...), append([]*rules.NetworkRule{}, sl...)
+			m := rules.NewMatchingResult(in1, in2)
+			// the lists handed in are the caller's: the same lists evaluated again give the same verdict
+			again := rules.NewMatchingResult(in1, in2).GetBasicResult()
+			_ = rules.GetDNSBasicRule(in1)
+			same := len(in1) == len(rl) && len(in2) == len(sl)
+			for k := range rl {
+				same = same && in1[k] == rl[k]
+			}
+			for k := range sl {
+				same = same && in2[k] == sl[k]
+			}
+			if (!same || again != m.GetBasicResult()) && !reported {
+				reported = true
+				c.Run.Violate(ev.Violation{Pred: "web-verdict-equals-reference", Sig: map[string]any{"rules": texts(), "route": "same lists evaluated twice"},
+					What:   fmt.Sprintf("NewMatchingResult(rules=%v, sourceRules=%v): first evaluation %s, second evaluation of the same two lists %s; the lists afterwards: %v, %v", netTexts(rl), netTexts(sl), renderNetText(m.GetBasicResult()), renderNetText(again), netTextsSafe(in1), netTextsSafe(in2)),
+					Replay: map[string]any{"rules": netTexts(rl), "source_rules": netTexts(sl)}})
+			}
 			b := m.GetBasicResult()
 			if got := c06ClassOfRule(b); (got != wantWeb || c06Special(b) != "" || c06Special(m.BasicRule) != "") && !reported {
 				reported = true
@@ -306,10 +324,31 @@ func c06Engine(c *Ctx, syms []c06Sym, set []int) (evals int64) {
 				r    *rules.NetworkRule
 				want int
 			}
-			for _, o := range []obs{{"Engine.MatchRequest", b, wantWeb}, {"NetworkEngine.Match", nb, wantNet}, {"DNSEngine.MatchRequest", dres.NetworkRule, wantDNS}} {
+			// the other routes to the DNS verdict: recomputed from the result's own rule list after its
+			// accessors were used (reading a result does not change it), and the Match(hostname) wrapper
+			// asked right after a request that carried client fields
+			before := netTexts(dres.NetworkRules)
+			var afterRule *rules.NetworkRule
+			if p := protect(func() {
+				_ = dres.DNSRewritesAll()
+				_ = dres.DNSRewrites()
+				_ = dres.DNSRewritesAll()
+				afterRule = rules.GetDNSBasicRule(dres.NetworkRules)
+			}); p != nil || fmt.Sprint(netTextsSafe(dres.NetworkRules)) != fmt.Sprint(before) {
+				if !reported {
+					reported = true
+					c.Run.Violate(ev.Violation{Pred: "engine-verdict-equals-reference", Sig: map[string]any{"engine": "DNSResult accessors", "lines": lines, "split": split},
+						What:   fmt.Sprintf("DNSEngine.MatchRequest over lists %v | %v: NetworkRules was %v, after DNSRewritesAll/DNSRewrites it is %v (panic: %v)", lines[:split], lines[split:], before, netTextsSafe(dres.NetworkRules), p),
+						Replay: map[string]any{"lines": lines, "split": split}})
+				}
+			}
+			_, _ = de.MatchRequest(&urlfilter.DNSRequest{Hostname: "ads.example.com", DNSType: 28, ClientName: "kid", ClientIP: netip.MustParseAddr("10.0.0.7"), SortedClientTags: []string{"a", "b"}})
+			wres, _ := de.Match("ads.example.com")
+			for _, o := range []obs{{"Engine.MatchRequest", b, wantWeb}, {"NetworkEngine.Match", nb, wantNet}, {"DNSEngine.MatchRequest", dres.NetworkRule, wantDNS},
+				{"DNSEngine.MatchRequest, GetDNSBasicRule(NetworkRules) after the accessors,", afterRule, wantDNS}, {"DNSEngine.Match(hostname) after a request with client fields,", wres.NetworkRule, wantDNS}} {
 				// $domain rules are browser-only: the DNS engine ignores them
 				want := o.want
-				if o.name == "DNSEngine.MatchRequest" {
+				if strings.HasPrefix(o.name, "DNSEngine.") {
 					var hostLevel []srule
 					for _, r := range Rs {
 						if !r.has("domain") && !r.has("stealth") {
@@ -447,6 +486,18 @@ func c06Size(c *Ctx) (evals int64) {
 		}
 	}
 	return evals
+}
+
+// netTextsSafe is netTexts for lists that may hold nil entries.
+func netTextsSafe(rs []*rules.NetworkRule) (out []string) {
+	for _, r := range rs {
+		if r == nil {
+			out = append(out, "<nil>")
+		} else {
+			out = append(out, r.RuleText)
+		}
+	}
+	return out
 }
 
 func textsOf(rs []srule) (out []string) {
